@@ -190,7 +190,15 @@ class Alg:
             else:
                 r = ("at", v, i)
         elif k == "field":
-            r = ("field", self.canon(t[1]), t[2])
+            if t[1][0] in ("upd", "struct", "tuple", "ite", "closure"):
+                v = self.eng.proj_field(t[1], t[2])
+                r = self.canon(v) if v != t else ("field", self.canon(t[1]), t[2])
+            else:
+                cb = self.canon(t[1])
+                if cb[0] in ("struct", "tuple") and t[2] < len(cb[-1]):
+                    r = cb[-1][t[2]]
+                else:
+                    r = ("field", cb, t[2])
         elif k == "rand":
             r = ("rand", t[1], t[2], tuple(self.canon(x) for x in t[3]))
         elif k == "loopout":
